@@ -532,10 +532,78 @@ def check_intra(ctx, spec):
         ctx.fail(spec, 'parser-cache', 'stale', f'caching parser: {cached} ; same parser without the memo: {plain}', ['intra', 'lit-collide'])
 
 
+# ---- campaign: literals that are equal as values but print differently ------------------------------------------------------
+_TWINS = [
+    ['float', '0.0', '-0.0'],
+    ['decimal', '10.0', '10.00'],
+    ['decimal', '10', '1E+1'],
+    ['decimal', '0', '-0'],
+    ['timestamp', '2020-01-01T12:00:00+00:00', '2020-01-01T13:00:00+01:00'],
+    ['int', '7', '7'],  # control: the very same value
+]
+twin_strategy = st.fixed_dictionaries({'twin': st.sampled_from(_TWINS), 'wrap': st.sampled_from(['bare', 'alias', 'arith', 'cmp', 'where', 'select'])})
+
+
+def _twin_value(kind: str, text: str):
+    import datetime  # pylint: disable=import-outside-toplevel
+    import decimal  # pylint: disable=import-outside-toplevel
+
+    if kind == 'float':
+        return float(text)
+    if kind == 'int':
+        return int(text)
+    if kind == 'decimal':
+        return decimal.Decimal(text)
+    return datetime.datetime.fromisoformat(text)
+
+
+def check_twin(ctx, spec):
+    """A literal is identified by its value: two python-equal values of one type give equal, equally hashing literals
+    (and features / statements around them), however the values print."""
+    kind, ta, tb = spec['twin']
+    ctx.case(spec, nontrivial=ta != tb, classes=['twin', f'twin:{kind}', f"twin-wrap:{spec['wrap']}"])
+    table = catalog.BY_NAME['A']
+    column = table.x if kind in ('int', 'float', 'decimal') else table.t
+
+    def wrap(value):
+        lit = dsl.Literal(value)
+        how = spec['wrap']
+        if how == 'bare':
+            return lit
+        if how == 'alias':
+            return lit.alias('n')
+        if how == 'arith':
+            return (column + lit) if kind != 'timestamp' else (column > lit)
+        if how == 'cmp':
+            return column > lit
+        if how == 'where':
+            return table.select(table.id).where(column > lit)
+        return table.select(table.id, lit.alias('n'))
+
+    va, vb = _twin_value(kind, ta), _twin_value(kind, tb)
+    if not (va == vb and type(va) is type(vb) and hash(va) == hash(vb)):
+        raise HarnessError(f'twin values are not python-equal: {va!r} {vb!r}')
+    res, err = _try(lambda: (wrap(va), wrap(vb)))
+    if err is not None:
+        ctx.fail(spec, 'twin-build', 'raises-' + err[0], err[1], [kind])
+        return
+    x, y = res
+    res, err = _try(lambda: (bool(x == y), bool(y == x), hash(x) == hash(y), len({x, y}), {x: 1}.get(y)))
+    if err is not None:
+        ctx.fail(spec, 'twin', 'raises-' + err[0], err[1], [kind, spec['wrap']])
+        return
+    eq, qe, heq, size, found = res
+    if not (eq and qe):
+        ctx.fail(spec, 'twin', 'equal-values-unequal', f'{x!r} vs {y!r}: == {eq}/{qe}', [kind])
+    elif not heq or size != 1 or found != 1:
+        ctx.fail(spec, 'twin', 'equal-but-not-interchangeable', f'{x!r} == {y!r} yet hash-equal={heq} len(set)={size} dict-hit={found}', [kind])
+
+
 def campaigns(ctx):
     return [
         Campaign('pair', pair_strategy, check_pair, 700, 5000),
         Campaign('intra', intra_strategy, check_intra, 100, 1000),
+        Campaign('twin', twin_strategy, check_twin, 72, 72),
     ]
 
 
